@@ -31,7 +31,7 @@ ASSUMPTIONS = [
 ]
 FLOORS = {
     "quick": {"eval:line_coordinates": 20000, "eval:grid_coordinates": 1500, "eval:spacing_to_size": 20000,
-              "eval:profile_coordinates": 100, "eval:shape_to_spacing": 100, "distinct_nontrivial": 5000, "class:long_line": 100, "class:long_line_50k": 15, "eval:ownership": 350, "eval:arguments_unmodified": 40000, "class:ndarray_shape_and_region": 50, "class:near_tie_not_at_tie": 100, "class:profile_extreme_magnitude": 40, "class:grid_near_tie": 50},
+              "eval:profile_coordinates": 100, "eval:shape_to_spacing": 100, "distinct_nontrivial": 5000, "class:long_line": 100, "class:long_line_50k": 15, "eval:ownership": 350, "eval:arguments_unmodified": 40000, "class:ndarray_shape_and_region": 50, "class:near_tie_not_at_tie": 100, "class:extra_coords_repeated_values": 60, "class:profile_extreme_magnitude": 40, "class:grid_near_tie": 50},
     "thorough": {"eval:line_coordinates": 200000, "eval:grid_coordinates": 10000, "distinct_nontrivial": 50000},
 }
 JOBS = {"quick": 1, "thorough": 16}
@@ -437,8 +437,12 @@ def run_case(run, tap, stream, index, rng):
                 kwargs["meshgrid"] = False
             elif rng.random() < 0.5:
                 # the same value spelled in every accepted way: bare scalar (incl. exactly zero), numpy scalar, list, tuple, ndarray
-                spell = int(rng.integers(0, 7))
-                kwargs["extra_coords"] = [0, 0.0, np.float64(0.0), float(rng.normal()), [0.0], (float(rng.normal()), 0.0), np.array([1.5, 0.0, -2.0])][spell]
+                spell = int(rng.integers(0, 11))
+                # ... and sequences in which values repeat (height 0 and time 0): one array per given value, in the order given
+                kwargs["extra_coords"] = [0, 0.0, np.float64(0.0), float(rng.normal()), [0.0], (float(rng.normal()), 0.0), np.array([1.5, 0.0, -2.0]),
+                                          [0.0, 0.0], [7, 7.0, 7], (1.0, 2.0, 1.0), np.array([0.0, -0.0, 3.0, 3.0])][spell]
+                if spell >= 7:
+                    run.count("class:extra_coords_repeated_values")
                 run.count("class:extra_coords_spelling_%d" % spell)
             res = vc.grid_coordinates(region, **kwargs)
         run.sample("grid", {"region": region, "kwargs": kwargs, "shapes": [np.shape(r) for r in res]})
